@@ -127,6 +127,8 @@ impl Property for C11 {
         // one scenario in a hundred has one record of more than a MiB (whatever is reused from
         // row to row - buffers - has to cope with a giant in between)
         let giant_at = if !very_long && !long && n > 0 && rng.chance(1, 100) { Some(rng.below(n)) } else { None };
+        // ... and one in thirty a large one (a length beyond sixteen bits)
+        let large_at = if giant_at.is_none() && !very_long && n > 0 && rng.chance(1, 60) { Some(rng.below(n)) } else { None };
         // positions holding a raw token instead of a spelled value (never redelivered)
         let mut odd: Vec<usize> = Vec::new();
         for i in 0..n {
@@ -140,8 +142,8 @@ impl Property for C11 {
                 vals.push(v);
                 continue;
             }
-            if giant_at == Some(i) {
-                let len = rng.range(1_100_000, 2_400_000);
+            if giant_at == Some(i) || large_at == Some(i) {
+                let len = if large_at == Some(i) { rng.range(65_500, 140_000) } else { rng.range(1_100_000, 2_400_000) };
                 let v = if rng.chance(1, 2) {
                     Val::Str("ab".repeat(len / 2))
                 } else {
@@ -276,7 +278,7 @@ impl Property for C11 {
             // ... and are written to a sink that takes a few bytes at a time
             case.out = gen_sink_garnish(rng, 400);
         }
-        if giant_at.is_some() {
+        if giant_at.is_some() || large_at.is_some() {
             // (a MiB a byte at a time would only exhaust the event budget)
             case.delivery = Delivery {
                 whole: true,
